@@ -390,7 +390,7 @@ def check_ellipse(fx, R):
     else:
         R.undecided('K4', 'Ellipse(covariance):axes', 'neither a JacobiSVD nor a self-adjoint eigen decomposition of the covariance argument found')
     inits = {i.get('field'): deep_unwrap(sx(i['e'])) for i in f['inits'] if i.get('field')}
-    R.check(inits.get('centerPosition_') == 'centerPosition', 'K4', 'Ellipse(covariance):centre', 'centre initialised with %s' % (inits.get('centerPosition_'),), 'centre = position', loc, 'E-SIB')
+    R.form(inits.get('centerPosition_') == 'centerPosition', 'K4', 'Ellipse(covariance):centre', 'centre initialised with %s' % (inits.get('centerPosition_'),), 'centre = position', loc, 'E-SIB')
     for (q, cov) in ((NS + 'uncertaintyEllipse', None),):
         for g in fx.fn(q):
             R.used(g)
